@@ -36,5 +36,26 @@ Definition pass_preserves_semantics (before after : func) : Prop :=
   forall (val world : Type) lit_val op_sem truthy br_eff,
     equivalent val world lit_val op_sem truthy br_eff before after.
 
-(* (c) wrapper argument parsing (CPyArg_ParseStackAndKeywords family) binds arguments as CPython does:
-   NOT modelled in this closure (see notes/C05.md, "not verified"). *)
+(* (c) wrapper argument parsing (CPyArg_ParseStackAndKeywords family, emitwrapper.py) binds arguments as CPython does.
+   FULL statement (ArgParse.v definitions): for every parameter list of the Python shape with distinct names and WITHOUT
+   positional-only parameters, and every call (any number of positional arguments, any list of distinct keyword names),
+   wrapper = general parser = py_bind.  Status:
+   - positional-only parameters: REFUTED (PropertiesC.argparse_posonly_refuted), hence the guard;
+   - calls WITHOUT keyword arguments: PROVED UNBOUNDED, with or without positional-only parameters
+     (PropertiesC.argparse_positional_accept_unbounded_partial: accept/reject incl. the wrapper fast paths;
+      PropertiesC.argparse_positional_bind_unbounded_partial: same bindings, *args, **kwargs);
+   - the reference itself: py_bind accepts exactly what C12's cpython_bind accepts, PROVED UNBOUNDED for every parameter
+     list and every call, keywords included (PropertiesC.py_bind_accepts_iff_cpython_bind_unbounded);
+   - the C parser on calls WITH keyword arguments: only the bounded sweep (argparse_eq_python_bind_upto5: <= 5 parameters,
+     <= 6 positional and <= 3 keyword actuals).  MISSING for an unbounded proof of that part: the invariant of the `nkwargs`
+     counter of vgetargskeywordsfast_impl (nk = #keywords - #keywords matched so far, and nk > 0 whenever an unmatched
+     parameter name is among the keywords -- a counting argument over duplicate-free lists), the pigeonhole behind its
+     first check (nargs + nkwargs > len), the equivalence of its final "given by name and position" / unknown-keyword scans
+     with CPython's per-keyword slot test, and the permutation between the reordered kwlist and the source order. *)
+From C12 Require Import Bind.
+From C05 Require Import ArgParse.
+Definition argparse_full_statement : Prop :=
+  forall ps c, Bind.shape (map to_formal ps) = true -> NoDup (map pname ps) -> NoDup (kws c) ->
+  forallb (fun p => negb (posonly p)) ps = true ->
+  same_outcome ps (parse_wrapper ps c) (py_bind ps c) = true
+  /\ same_outcome ps (parse_general (make_parser ps) (npos c) (kws c)) (py_bind ps c) = true.
